@@ -38,7 +38,9 @@ RULE = ("a case is one real BANE run (rows, cols, step, box, cores, nslice, mask
         "(others already at the barrier / fault first while the others are held before their next barrier); "
         "non-trivial = at least 2 realised stripes and (a forced arrival order at a synchronisation "
         "point, or an injected fault, or realised stripes > requested cores/stripes); distinct by (layout, cores, mask, "
-        "content, schedule, fault); layout cases (rows, step, nslice) are counted separately in the histogram")
+        "content, schedule, fault); plus in-process histories (several filter_image calls in one process on a reused, "
+        "rewritten file name, each compared with a never-used name and a fresh process) and a SIGINT-to-the-group "
+        "scenario; layout cases (rows, step, nslice) are counted separately in the histogram")
 ASSUMPTIONS = [
     "the OS scheduler, fork, /dev/shm and the multiprocessing resource tracker are observed, not modelled; the barrier "
     "state machine is modelled from CPython 3.12 threading.Barrier (enter / release / exit / reset / abort under one lock)",
